@@ -16,8 +16,12 @@ the headings and the lists of `Analyzer.Analyze` come from, as far as fragments 
   type of the last item; runs shorter than `MinConsecutiveItems` (2) are not lists.
 * `calculateListBBox` (`listBox`), `detectNesting` / `GetAllItems` (a list shows the lines of all
   its items, nested or not: `listElem`).
-* `buildElementTree` = `elementTree bboxOverlaps` on these headings and lists and on the
-  paragraphs of the reading order (`pageElements`, `analysisElements`).
+* `buildElementTree` = `elementTree` on these headings and lists and on the paragraphs of the
+  reading order (`pageElements`, `analysisElements`): after the repair 8ee0e52 a paragraph gives
+  up exactly the fragments a heading or list shows, and a heading that is a list item is left to
+  the list. `pageElementsOld` / `analysisElementsOld` are the tree before the repair
+  (`elementTreeOld bboxOverlaps`: suppression by box overlap), kept for the pinned
+  counterexamples.
 
 Boxes and average font sizes of paragraphs are inputs (exact rationals of the float64 values).
 -/
@@ -78,9 +82,14 @@ def listElems (maxGap : Rat) (minItems : Nat) (ps : List PPar) : List Elem :=
   (groupIntoLists maxGap minItems (candsFrom 0 ps)).map listElem
 
 /-- `buildElementTree` (before the final reordering) on the page paragraphs `ps` and on the
-paragraphs of the reading order -/
-def pageElements (ps : List PPar) (roPars : List Elem) : List Elem :=
-  elementTree bboxOverlaps (headingElems ps) (listElems 2 2 ps) roPars
+paragraphs of the reading order; `rbox` = the box of what remains of a paragraph that loses
+fragments (an input) -/
+def pageElements (rbox : Elem → List Nat → Box) (ps : List PPar) (roPars : List Elem) : List Elem :=
+  elementTree rbox (headingElems ps) (listElems 2 2 ps) roPars
+
+/-- the same before the repair 8ee0e52 -/
+def pageElementsOld (ps : List PPar) (roPars : List Elem) : List Elem :=
+  elementTreeOld bboxOverlaps (headingElems ps) (listElems 2 2 ps) roPars
 
 /-- the inputs of the model for one paragraph: `Paragraph.BBox`, `.AverageFontSize`, the heading
 decision, the list type -/
@@ -99,6 +108,8 @@ structure ElemHeur where
   brkPage : List (List Frag) → List Frag → List (List Frag) → Bool
   info : List (List Frag) → ParInfo
   boxP : List (List Frag) → Box
+  /-- the box of what remains of a reading-order paragraph (its ids, the remaining ids) -/
+  boxR : List Nat → List Nat → Box
 
 /-- the page paragraphs heading and list detection work on -/
 def pagePars (hz : Heur) (bh : BlockHeur) (eh : ElemHeur) (fs : List Frag) : List PPar :=
@@ -110,6 +121,10 @@ def roParElems (hz : Heur) (bh : BlockHeur) (eh : ElemHeur) (fs : List Frag) : L
 
 /-- `AnalysisResult.Elements` of `(*Analyzer).Analyze` (default configuration), as a multiset -/
 def analysisElements (hz : Heur) (bh : BlockHeur) (eh : ElemHeur) (fs : List Frag) : List Elem :=
-  pageElements (pagePars hz bh eh fs) (roParElems hz bh eh fs)
+  pageElements (fun p rest => eh.boxR p.ids rest) (pagePars hz bh eh fs) (roParElems hz bh eh fs)
+
+/-- `AnalysisResult.Elements` before the repair 8ee0e52 -/
+def analysisElementsOld (hz : Heur) (bh : BlockHeur) (eh : ElemHeur) (fs : List Frag) : List Elem :=
+  pageElementsOld (pagePars hz bh eh fs) (roParElems hz bh eh fs)
 
 end Tabula.Layout
